@@ -820,7 +820,7 @@ func runC12() {
 		"007", "08", "0_8", "1e5", "1E5", "1e+5", "1e-5", ".0", "0.", "0", "1e999", "1e-999", "0.0000001", "1_000.5_5e1_0",
 		"''", "\"\"", "'\\'", "'\\400'", "'\\8'", "'\\xZZ'", "'\\ud800'", "'\\U00110000'", "'\\`'", "'\\?'", "\"\\'\"", "'\\\"'", "'a\nb'", "'ab",
 		"a?.5:b", "ok?.5:foo", "x ?.5", "a?.5?.5:1", "a?.5 + 1", "a? .5:b", "a?.b.5", "a?..5",
-		"a ?. b", "a?.b", "a ? .5 : 1", "a?.?b", "a..b", "a.b.c", "not", "not in", "a not in b", "a not  in b", "a not\tin b", "a not inb", "a not in", "notin",
+		"a ?. b", "a?.b", "a ? .5 : 1", "a?.?b", "a..b", "a.b.c", "not", "not in", "a not in b", "a not  in b", "a not\tin b", "a not inb", "a not in", "notin", "not inStock", "not  index(x) + y", "a and not   in_var b", "not in9 .5", "not\tinX y", "not  in(x) z", "not   inÜ + 1",
 		"$x", "_", "é", "\u0663", "a\u00a0b", "a\u2028b", "@", "~", "a\\b", "1a", "1.a", "1e5a", "0xg", "\x00", "\x7f", ""}
 	for _, s := range corpus {
 		toks, err, p := c12SafeLex(s)
